@@ -176,6 +176,8 @@ def apply_op(c, model, op, kind):
             if not model:
                 return "setitem-skip", None
             i = op["i"] % len(model)
+            if op.get("neg"):
+                i = i - len(model)           # the same position addressed from the end
             o = make(op["t"])
             c[i] = o
             model[i] = o
@@ -249,7 +251,7 @@ op = st.one_of(
     st.builds(lambda i: {"op": "pop", "i": i}, st.integers(0, 7)),
     st.just({"op": "cleanup"}),
     st.builds(lambda ts: {"op": "set_avps", "ts": ts}, st.lists(templ, min_size=0, max_size=3)),
-    st.builds(lambda i, t: {"op": "setitem", "i": i, "t": t}, st.integers(0, 7), templ),
+    st.builds(lambda i, t, n: {"op": "setitem", "i": i, "t": t, "neg": n}, st.integers(0, 7), templ, st.booleans()),
     st.builds(lambda i, n: {"op": "update_key", "i": i, "new": n}, st.integers(0, 7), st.sampled_from(NEW_NAMES)),
     st.builds(lambda kv: {"op": "update_avps", "key": kv[0], "value": kv[1]}, st.sampled_from(UPD)),
     st.just({"op": "refresh"}),
@@ -313,7 +315,7 @@ def _bfs(args):
 
 SMALL_OPS = [{"op": "append", "t": 0}, {"op": "append", "t": 1}, {"op": "append", "t": 3}, {"op": "append", "t": 6},
              {"op": "pop", "i": 0}, {"op": "pop", "i": 1}, {"op": "pop", "i": 2}, {"op": "cleanup"},
-             {"op": "setitem", "i": 0, "t": 2}, {"op": "setitem", "i": 1, "t": 3},
+             {"op": "setitem", "i": 0, "t": 2}, {"op": "setitem", "i": 1, "t": 3, "neg": True},
              {"op": "update_key", "i": 0, "new": "alias"}, {"op": "update_avps", "key": "origin_host", "value": "host-c"},
              {"op": "set_avps", "ts": [0, 1]}, {"op": "refresh"}]
 
